@@ -235,7 +235,7 @@ func checkC01(ci interface{}, st *Stats) error {
 	res := make([][]q, len(g.Rules))
 	lrRules := leftRecursiveRules(g)
 	nontrivial := false
-	trims := hasKind(g, KLTrim) || hasKind(g, KRTrim) || wide
+	trims := hasKind(g, KLTrim) || hasKind(g, KRTrim) || wide || hasKind(g, KSingle)
 	if trims && !wide {
 		// whitespace trimming is followed on the span level: which end offsets a rule reaches
 		st.Class("grammar with whitespace trimming (span level)")
@@ -334,6 +334,7 @@ func init() {
 			o.RuleNames = rapid.IntRange(0, 3).Draw(t, "rulenames") == 1
 			o.Names = rapid.IntRange(0, 2).Draw(t, "names") == 1 // names must not change results
 			o.RefTrims = rapid.IntRange(0, 3).Draw(t, "reftrims") == 0
+			o.SingleSafe = rapid.IntRange(0, 4).Draw(t, "singlesafe") == 0
 			g := GenGrammar(t, o)
 			memoAll := rapid.Bool().Draw(t, "memoAll")
 			if rapid.IntRange(0, 3).Draw(t, "alias") == 0 {
